@@ -23,26 +23,16 @@ TEXT ·CumSum(SB), NOSPLIT, $0
 	JZ      cs_tail_start      // if CX == 0 { goto cs_tail_start }
 
 cs_loop: // Loop unrolled 4x   do {
-	MOVUPS (SI)(AX*8), X0   // X0 = s[i:i+1]
-	MOVUPS 16(SI)(AX*8), X2
-	MOVAPS X0, X1           // X1 = X0
-	MOVAPS X2, X3
-	SHUFPD $1, X1, X1       // { X1[0], X1[1] } = { X1[1], X1[0] }
-	SHUFPD $1, X3, X3
-	ADDPD  X0, X1           // X1 += X0
-	ADDPD  X2, X3
-	SHUFPD $2, X1, X0       // { X0[0], X0[1] } = { X0[0], X1[1] }
-	SHUFPD $3, X1, X1       // { X1[0], X1[1] } = { X1[1], X1[1] }
-	SHUFPD $2, X3, X2
-	SHUFPD $3, X3, X3
-	ADDPD  X5, X0           // X0 += p_sum
-	ADDPD  X1, X5           // p_sum += X1
-	ADDPD  X5, X2
-	MOVUPS X0, (DI)(AX*8)   // dst[i] = X0
-	MOVUPS X2, 16(DI)(AX*8)
-	ADDPD  X3, X5
-	ADDQ   $4, AX           // i += 4
-	LOOP   cs_loop          // } while --CX > 0
+	ADDSD 0(SI)(AX*8), X5  // p_sum += s[i]
+	MOVSD X5, 0(DI)(AX*8)  // dst[i] = p_sum
+	ADDSD 8(SI)(AX*8), X5
+	MOVSD X5, 8(DI)(AX*8)
+	ADDSD 16(SI)(AX*8), X5
+	MOVSD X5, 16(DI)(AX*8)
+	ADDSD 24(SI)(AX*8), X5
+	MOVSD X5, 24(DI)(AX*8)
+	ADDQ  $4, AX           // i += 4
+	LOOP  cs_loop          // } while --CX > 0
 
 	// if BX == 0 { return }
 	CMPQ BX, $0
